@@ -179,6 +179,7 @@ func needsUpdate(backend Database, strat UpdateStrategy, alias string, cfg *conf
 	build, err := backend.GetBuildArtifact(alias)
 	if err != nil {
 		logging.Errorf("db: build artifact for '%s' not found. error during fetch: %v", alias, err)
+		return false
 	}
 
 	if strat&UpdateExpired > 0 && build.Certificate != nil &&
